@@ -67,6 +67,16 @@ Theorem C13_need_only_incomplete : forall data hint,
   frame_read data = RNeed hint -> complete_frame data = false.
 Proof. exact need_only_incomplete. Qed.
 
+(* the delivered message — decoded body included — is a function of the frame's OWN bytes:
+   whatever follows a complete frame in the buffer (further frames, garbage, nothing), Read
+   gives the same message and the same consumed length; so the deliveries cannot depend on
+   where the stream happens to be cut, also for frames whose body is shorter than what its
+   codec would like to read *)
+Theorem C13_frame_bytes_only : forall f rest,
+  complete_frame f = true -> len f = unbe (sub f 3 7) ->
+  frame_read (f ++ rest) = frame_read f.
+Proof. exact frame_bytes_only. Qed.
+
 (* Read is a function of the bytes it is given (the model's frame_read takes nothing
    else): two connections served by the ONE handler instance, their receives interleaved
    in any order, one of them possibly dying mid-frame — each delivers exactly what it
@@ -135,4 +145,13 @@ Example C13_complete_frame_nonvacuous :
   /\ frame_read f = RMsg {| r_id := 9; r_type := 0; r_codec := 1; r_compressor := 0; r_head := [];
                             r_body := [x77; x77; x01; x02] |} 20
   /\ frame_read (firstn 19 f) = RNeed 20.
+Proof. vm_compute. auto. Qed.
+
+(* a delimited frame with a 3-byte body, followed by the magic of the next frame *)
+Example C13_frame_bytes_only_nonvacuous :
+  let f := [xda; xda; x01; x00; x00; x00; x13; x00; x10; x00; x01; x00; x00; x00; x00; x09; x00; x02; x00] in
+  complete_frame f = true /\ len f = unbe (sub f 3 7)
+  /\ frame_read (f ++ [xda; xda; x01; x00]) = frame_read f
+  /\ frame_read f = RMsg {| r_id := 9; r_type := 0; r_codec := 1; r_compressor := 0; r_head := [];
+                            r_body := [x00; x02; x00] |} 19.
 Proof. vm_compute. auto. Qed.
